@@ -557,12 +557,12 @@ static std::string decode(ll c)
 template <typename T>
 static T val1(int x, int y, int z)
 {
-  return T(1 + x + 4 * y + 16 * z);
+  return T(1 + x + 5 * y + 25 * z);
 }
 template <typename T>
 static T val2(int x, int y, int z)
 {
-  return T(200 - (x + 4 * y + 16 * z));
+  return T(250 - (x + 5 * y + 25 * z));
 }
 
 // ------------------------------------------------------------------ ActualArray3D
@@ -793,13 +793,13 @@ static IN acc_value(int x, int y, int z);
 template <>
 int acc_value<int>(int x, int y, int z)
 {
-  const int k = x + 4 * y + 16 * z;
-  return (k % 2 ? -1 : 1) * (k * 262139 + 3);  // |v| < 2^24: exactly representable as float
+  const int k = x + 5 * y + 25 * z;
+  return (k % 2 ? -1 : 1) * (k * 131071 + 3);  // |v| < 2^24: exactly representable as float
 }
 template <>
 float acc_value<float>(int x, int y, int z)
 {
-  const int k = x + 4 * y + 16 * z;
+  const int k = x + 5 * y + 25 * z;
   return (k % 3 == 1 ? -1.f : 1.f) * (0.25f * (float)(k * 7 + 1) + (k % 5 == 0 ? 1000000.f : 0.f));  // fractions .25/.5/.75, both signs
 }
 
@@ -1114,8 +1114,11 @@ int main(int argc, char **argv)
     vr::flush();
     return vr::S().viols.empty() ? 0 : 1;
   }
-  std::vector<std::string> cases;
-  auto add = [&](const std::string &s) { cases.push_back(s); };
+  // Cases are grouped into shards; a shard is one forked child.  A crash loses what the child found before it
+  // in the same shard, so everything that touches memory or can trip UBSan runs one case per shard; only the
+  // for_each cases (no memory, no arithmetic) are chunked.
+  std::vector<std::vector<std::string>> groups;
+  auto add = [&](const std::string &s) { groups.push_back(std::vector<std::string>(1, s)); };
   auto st = [](u64 v) { return std::to_string(v); };
   // --- index maps, small extents: every extent in [0,5]^N (an extent 0 is an empty sequence)
   for (u64 dz = 0; dz <= 5; dz++)
@@ -1147,20 +1150,24 @@ int main(int argc, char **argv)
       for (u64 dx : big)
         if ((u128)dx * dy * dz < ((u128)1 << 64))
           add("v3i:" + st(dx) + "," + st(dy) + "," + st(dz));
-  // --- for_each: every lower, upper in [-1,3]^3 (upper <= lower on an axis = empty region)
-  for (int lz = -1; lz <= 3; lz++)
-    for (int ly = -1; ly <= 3; ly++)
-      for (int lx = -1; lx <= 3; lx++)
-        for (int uz = -1; uz <= 3; uz++)
-          for (int uy = -1; uy <= 3; uy++)
-            for (int ux = -1; ux <= 3; ux++)
-              add("foreach:" + sll(lx) + "," + sll(ly) + "," + sll(lz) + "," + sll(ux) + "," + sll(uy) + "," + sll(uz));
-  // --- arrays and adaptors: every extent in [1,4]^3
+  // --- for_each: every lower, upper in [-1,3]^3 (thorough [-1,4]^3); upper <= lower on an axis = empty region
+  const int FE = vr::thorough() ? 4 : 3;
+  for (int lz = -1; lz <= FE; lz++)
+    for (int ly = -1; ly <= FE; ly++)
+      for (int lx = -1; lx <= FE; lx++) {
+        groups.push_back(std::vector<std::string>());
+        for (int uz = -1; uz <= FE; uz++)
+          for (int uy = -1; uy <= FE; uy++)
+            for (int ux = -1; ux <= FE; ux++)
+              groups.back().push_back("foreach:" + sll(lx) + "," + sll(ly) + "," + sll(lz) + "," + sll(ux) + "," + sll(uy) + "," + sll(uz));
+      }
+  // --- arrays and adaptors: every extent in [1,4]^3 (thorough [1,5]^3)
+  const int AR = vr::thorough() ? 5 : 4;
   const int VR = vr::thorough() ? 4 : 3;  // getValueRange extents
   const char *types[] = {"i", "f", "u8", "d"};
-  for (int dz = 1; dz <= 4; dz++)
-    for (int dy = 1; dy <= 4; dy++)
-      for (int dx = 1; dx <= 4; dx++) {
+  for (int dz = 1; dz <= AR; dz++)
+    for (int dy = 1; dy <= AR; dy++)
+      for (int dx = 1; dx <= AR; dx++) {
         const std::string d = sll(dx) + "," + sll(dy) + "," + sll(dz);
         for (int t = 0; t < 4; t++)
           add(std::string("actual:") + types[t] + "," + d);
@@ -1173,24 +1180,25 @@ int main(int argc, char **argv)
         add("access:i>f," + d);
         add("access:f>i," + d);
       }
-  for (int dy = 1; dy <= 4; dy++)
-    for (int dx = 1; dx <= 4; dx++)
+  for (int dy = 1; dy <= AR; dy++)
+    for (int dx = 1; dx <= AR; dx++)
       for (int n = 1; n <= 3; n++)
         for (int sd = 1; sd <= 2; sd++)
           for (int t = 0; t < 2; t++)
             add(std::string("mslice:") + types[t] + "," + sll(dx) + "," + sll(dy) + "," + sll(n) + "," + sll(sd));
 
-  const int NSH = 32;
-  vr::run_sharded(NSH, [&](int shard, long long resume_after) {
+  vr::run_sharded((int)groups.size(), [&](int shard, long long resume_after) {
+    const std::vector<std::string> &cases = groups[shard];
     for (size_t i = 0; i < cases.size(); i++) {
-      if ((int)(i % NSH) != shard || (long long)i <= resume_after)
+      if ((long long)i <= resume_after)
         continue;
       vr::begin_case((long long)i, ctx_of(cases[i]), cases[i]);
       if (!run_case(cases[i]))
         vr::violation("harness|unparsable case", cases[i], "internal");
       vr::stat("cases");
     }
-  });
+  }, 16, 300);
+  vr::stat("shards", (long long)groups.size());
   vr::stat("traces", vr::S().stats["states"]);
   return vr::finish();
 }
